@@ -7,8 +7,8 @@
    The main statement holds for every class and every input (no domain restriction since the
    empty-string alias was repaired in /repo 7108448). *)
 From Coq Require Import List String Ascii ZArith Bool.
-From Verif Require Import Regex PyK PyK_strat PyK_alias FieldDecl FieldDeclProofs KeyModel KeyImpl KeyProofs KeyDecl KeyCfg KeyNested KeyRewrite KeyHook KeyDc KeyDcDecl KeyDeep KeyDeepHook PyK_clsdiscr KeyDiscr.
-From VerifGen Require Import K4 K5 K43.
+From Verif Require Import Regex PyK PyK_strat PyK_alias FieldDecl FieldDeclProofs KeyModel KeyImpl KeyProofs KeyDecl KeyCfg KeyNested KeyRewrite KeyHook KeyDc KeyDcDecl KeyDeep KeyDeepHook PyK_clsdiscr KeyDiscr KeyHookLookup.
+From VerifGen Require Import K4 K5 K109a K109b.
 Import ListNotations.
 Open Scope string_scope.
 Open Scope list_scope.
@@ -319,7 +319,7 @@ Example C09_nonvacuous_deep_hooks :
   /\ deeph_ref 10 [n; k] [None; None] 1 [(KeyS "x", VL [VD [(KeyS "legacy", VZ 1)]])] = DInvalid "x".
 Proof. repeat split; vm_compute; reflexivity. Qed.
 
-(* ---- which class-level discriminator: CodeBuilder.get_discriminator translated (K43), run on the class objects
+(* ---- which class-level discriminator: CodeBuilder.get_discriminator translated (K109a), run on the class objects
    of a hierarchy (MRO nearest class first; every class with the Config its body defines, every Config with the
    Config it derives from / BaseConfig / nothing and the `discriminator` line it writes) ---- *)
 
@@ -383,6 +383,40 @@ Example C09_nonvacuous_discr :
   /\ impl_from_dhier [(mkL [] (Some (mkCD true false None None None)), DAbsent); b (DObj None); a] d = Ok Dispatcher
   /\ get_discriminator (cls_obj_d [k; b (DObj (Some "u")); a]) base_config_d (KBool true)
      = Ok (KNs [("__class__", KStr "Discriminator"); ("field", KStr "u")]).
+Proof. repeat split; vm_compute; reflexivity. Qed.
+
+(* ---- which __pre_deserialize__: CodeBuilder.get_declared_hook + helpers.get_class_that_defines_method translated
+   (K109b), run on the class objects of a hierarchy (dataclasses of the MRO nearest first, then DataClassDictMixin with
+   its stub if the mixins are used, then object) ---- *)
+
+(* the hook of the nearest class whose body defines one; the mixin's own stub is not a hook *)
+Theorem C09_declared_hook : forall hs mixin,
+  get_declared_hook (cls_obj_h hs mixin) A_PRE = Ok (enc_hook (declared_idx hs))
+  /\ dec_hook hs (enc_hook (declared_idx hs)) = declared_hook hs.
+Proof. intros hs mixin. split; [apply get_declared_hook_spec | apply dec_enc_hook]. Qed.
+Print Assumptions C09_declared_hook.
+
+(* the generated from_dict with the hook found by the translated lookup: KEYMODEL on the mapping rewritten by the
+   nearest hook (= C09_pre_hook with KeyRewrite.nearest_hook replaced by the code) *)
+Theorem C09_pre_hook_code : forall hooks mixin ls discr d,
+  impl_hooked_code hooks mixin ls discr d
+  = Ok (keymodel (class_of ls discr) (apply_hook (declared_hook (rev hooks)) d))
+  /\ nearest_hook hooks = declared_hook (rev hooks).
+Proof. intros. split; [apply impl_hooked_code_keymodel | apply nearest_hook_declared]. Qed.
+Print Assumptions C09_pre_hook_code.
+
+(* A defines a hook (drop "junk"), B(A) another (rename "legacy" -> "ax"), K(B) none: K runs B's; without B's, A's;
+   with the mixins and no hook anywhere the stub of DataClassDictMixin is found and ignored *)
+Example C09_nonvacuous_hook_lookup :
+  let ha := Some [HDrop (KeyS "junk")] in
+  let hb := Some [HRename (KeyS "legacy") (KeyS "ax")] in
+  let ls := [mkL [(mkF "x" (Some "ax") None false, true)] (Some (mkCD false false None None (Some true)))] in
+  get_declared_hook (cls_obj_h [None; hb; ha] true) A_PRE = Ok (hook_val 1)
+  /\ get_declared_hook (cls_obj_h [None; None; ha] true) A_PRE = Ok (hook_val 0)
+  /\ get_declared_hook (cls_obj_h [None; None] true) A_PRE = Ok KNone
+  /\ get_class_that_defines_method A_PRE (cls_obj_h [None; None] true) = Ok (class_of_entry mixin_entry)
+  /\ impl_hooked_code [ha; hb; None] true ls None [(KeyS "legacy", 1%Z)] = Ok (OInst [("x", Some (KeyS "ax", 1%Z))])
+  /\ impl_hooked_code [ha; None; None] false ls None [(KeyS "legacy", 1%Z)] = Ok (OExtra [KeyS "legacy"]).
 Proof. repeat split; vm_compute; reflexivity. Qed.
 
 (* ---- arbitrary MROs (diamonds): a model of CPython's dataclass walk and of get_type_hints ---- *)
